@@ -605,7 +605,7 @@ def ob_f_support_notnan(name):
 F_NOTNAN_TERMS = ["Triangle", "Trapezoid", "Rectangle", "Ramp", "SemiEllipse", "Arc"]
 
 
-def obligations(tier, seed):
+def _obligations(tier, seed):
     obs = []
     for name in TERMS:
         obs.append((f"{name}/R/def", ob_def(name)))
@@ -625,3 +625,8 @@ def obligations(tier, seed):
     for name in F_NOTNAN_TERMS:
         obs.append((f"{name}/F/not-nan", ob_f_support_notnan(name)))
     return obs
+
+
+def obligations(tier, seed):
+    from . import conform
+    return _obligations(tier, seed) + conform.obligations(PROPERTY, tier)
